@@ -16,6 +16,7 @@ except ImportError:
     _ssl = None  # type: ignore
 
 from h2.config import H2Configuration
+from h2.errors import ErrorCodes
 from multidict import MultiDict
 
 from .utils import Wrapper, DeadlineWrapper
@@ -66,7 +67,10 @@ class Handler(AbstractHandler):
     connection_lost = False
 
     def accept(self, stream: Any, headers: Any, release_stream: Any) -> None:
-        raise NotImplementedError('Client connection can not accept requests')
+        # servers can't open streams, refuse it instead of raising out of the
+        # connection's input path, which would drop other calls' frames
+        stream.reset_nowait(ErrorCodes.REFUSED_STREAM)
+        release_stream()
 
     def cancel(self, stream: Any) -> None:
         pass
